@@ -540,6 +540,17 @@ def rule_tab_special(P):
               f"`len(r.body) == 0`): states without incident arcs (e.g. the single state of the acceptor of the empty string) lose "
               f"their null derivations", slots=dict(iterates=[norm(n.iter) for n in found]),
               construct=f"{f.name}: nullary rules at every machine state")
+    # pass 2 emits EVERY expansion of every non-nullary rule (no filter on the composed rule itself)
+    for n in walk_live(f2.node):
+        if isinstance(n, ast.Call) and W.call_name(n) == "add" and len(n.args) >= 3 and any(isinstance(a, ast.Starred) for a in n.args) \
+                and isinstance(n.args[1], ast.Tuple) and len(n.args[1].elts) == 3:
+            lp = next((a for a in ancestors(n) if isinstance(a, ast.For) and "join" in norm(a.iter)), None)
+            if lp is None:
+                continue
+            extra = [ft for ft in W.guard_facts(n) if ft.kind in ("if", "else", "early-exit", "early-exit-else") and W._within(ft.origin, lp)]
+            ok = not extra
+            r.add(f2, n, ok, "" if ok else f"`{first_line(n)}` is skipped under {[repr(x) for x in extra]}: composed rules such as the unit "
+                  f"self-loop (I,X,K) → (I,X,K) carry weight (1/(1-w) in non-idempotent semirings) and must all be emitted")
     r.min_instances = 7
     return r
 
